@@ -751,19 +751,43 @@ impl Exec {
                 let group = sreq(a, "group")?;
                 let auth = self.env.wallet(sreq(a, "authority")?);
                 let payer = self.env.wallet("payer");
-                let ak = self.k(acct);
-                signers.extend([ak, auth, payer]);
-                (
-                    ac::MarginfiAccountInitialize {
-                        marginfi_group: self.k(group),
+                if let Some(pd) = a.get("pda") {
+                    // PDA-derived account: seeds (group, authority, index, third-party id); the id may be gated to a calling program
+                    let idx = u64o(pd, "index").unwrap_or(0) as u16;
+                    let tp = u64o(pd, "third_party").map(|x| x as u16);
+                    let gk = self.k(group);
+                    let ak = Pubkey::find_program_address(
+                        &[tc::MARGINFI_ACCOUNT_SEED.as_bytes(), gk.as_ref(), auth.as_ref(), &idx.to_le_bytes(), &tp.unwrap_or(0).to_le_bytes()],
+                        &marginfi::ID,
+                    )
+                    .0;
+                    self.env.names.reg(acct, ak);
+                    signers.extend([auth, payer]);
+                    let m = ac::MarginfiAccountInitializePda {
+                        marginfi_group: gk,
                         marginfi_account: ak,
                         authority: auth,
                         fee_payer: payer,
+                        instructions_sysvar: solana_program::sysvar::instructions::ID,
                         system_program: system_program::ID,
                     }
-                    .to_account_metas(None),
-                    ix::MarginfiAccountInitialize {}.data(),
-                )
+                    .to_account_metas(None);
+                    (m, ix::MarginfiAccountInitializePda { account_index: idx, third_party_id: tp }.data())
+                } else {
+                    let ak = self.k(acct);
+                    signers.extend([ak, auth, payer]);
+                    (
+                        ac::MarginfiAccountInitialize {
+                            marginfi_group: self.k(group),
+                            marginfi_account: ak,
+                            authority: auth,
+                            fee_payer: payer,
+                            system_program: system_program::ID,
+                        }
+                        .to_account_metas(None),
+                        ix::MarginfiAccountInitialize {}.data(),
+                    )
+                }
             }
             "close_account" => {
                 let acct = sreq(a, "acct")?;
@@ -784,9 +808,17 @@ impl Exec {
                 let payer = self.env.wallet("payer");
                 let nk = self.k(new);
                 let new_auth = self.env.wallet(sreq(a, "new_authority")?);
-                signers.extend([auth, payer, nk]);
-                (
-                    ac::TransferToNewAccount {
+                if let Some(pd) = a.get("pda") {
+                    let idx = u64o(pd, "index").unwrap_or(0) as u16;
+                    let tp = u64o(pd, "third_party").map(|x| x as u16);
+                    let nk = Pubkey::find_program_address(
+                        &[tc::MARGINFI_ACCOUNT_SEED.as_bytes(), ma.group.as_ref(), new_auth.as_ref(), &idx.to_le_bytes(), &tp.unwrap_or(0).to_le_bytes()],
+                        &marginfi::ID,
+                    )
+                    .0;
+                    self.env.names.reg(new, nk);
+                    signers.extend([auth, payer]);
+                    let m = ac::TransferToNewAccountPda {
                         group: ma.group,
                         old_marginfi_account: self.k(acct),
                         new_marginfi_account: nk,
@@ -794,11 +826,28 @@ impl Exec {
                         fee_payer: payer,
                         new_authority: new_auth,
                         global_fee_wallet: g.fee_state_cache.global_fee_wallet,
+                        instructions_sysvar: solana_program::sysvar::instructions::ID,
                         system_program: system_program::ID,
                     }
-                    .to_account_metas(None),
-                    ix::TransferToNewAccount {}.data(),
-                )
+                    .to_account_metas(None);
+                    (m, ix::TransferToNewAccountPda { account_index: idx, third_party_id: tp }.data())
+                } else {
+                    signers.extend([auth, payer, nk]);
+                    (
+                        ac::TransferToNewAccount {
+                            group: ma.group,
+                            old_marginfi_account: self.k(acct),
+                            new_marginfi_account: nk,
+                            authority: auth,
+                            fee_payer: payer,
+                            new_authority: new_auth,
+                            global_fee_wallet: g.fee_state_cache.global_fee_wallet,
+                            system_program: system_program::ID,
+                        }
+                        .to_account_metas(None),
+                        ix::TransferToNewAccount {}.data(),
+                    )
+                }
             }
             "freeze" => {
                 let acct = sreq(a, "acct")?;
@@ -1889,6 +1938,52 @@ impl Exec {
                     )
                 }
             }
+            "clone_bank" => {
+                // staging-only instruction: on this (mainnet) build it must refuse whatever it is given
+                let group = sreq(a, "group")?;
+                let bank = sreq(a, "bank")?;
+                let src = sreq(a, "from")?;
+                let sb = self.bank(src)?;
+                let mint = self.env.mint_by_key(&sb.mint).cloned().ok_or("no mint")?;
+                let g = self.group(group)?;
+                let admin = self.admin_signer(a, g.admin);
+                let payer = self.env.wallet("payer");
+                signers.extend([admin, payer]);
+                let gk = self.k(group);
+                let sd = u64o(a, "seed").unwrap_or(0);
+                let bk = Pubkey::find_program_address(&[gk.as_ref(), mint.key.as_ref(), &sd.to_le_bytes()], &marginfi::ID).0;
+                self.env.names.reg(bank, bk);
+                for (nm, seed_s) in [
+                    ("liq", tc::LIQUIDITY_VAULT_SEED),
+                    ("ins", tc::INSURANCE_VAULT_SEED),
+                    ("fee", tc::FEE_VAULT_SEED),
+                    ("liq_auth", tc::LIQUIDITY_VAULT_AUTHORITY_SEED),
+                    ("ins_auth", tc::INSURANCE_VAULT_AUTHORITY_SEED),
+                    ("fee_auth", tc::FEE_VAULT_AUTHORITY_SEED),
+                ] {
+                    self.env.names.reg(&format!("{}.{}", bank, nm), pda(seed_s, &bk));
+                }
+                (
+                    ac::LendingPoolCloneBank {
+                        marginfi_group: gk,
+                        admin,
+                        fee_payer: payer,
+                        bank_mint: mint.key,
+                        source_bank: self.k(src),
+                        bank: bk,
+                        liquidity_vault_authority: pda(tc::LIQUIDITY_VAULT_AUTHORITY_SEED, &bk),
+                        liquidity_vault: pda(tc::LIQUIDITY_VAULT_SEED, &bk),
+                        insurance_vault_authority: pda(tc::INSURANCE_VAULT_AUTHORITY_SEED, &bk),
+                        insurance_vault: pda(tc::INSURANCE_VAULT_SEED, &bk),
+                        fee_vault_authority: pda(tc::FEE_VAULT_AUTHORITY_SEED, &bk),
+                        fee_vault: pda(tc::FEE_VAULT_SEED, &bk),
+                        token_program: mint.program,
+                        system_program: system_program::ID,
+                    }
+                    .to_account_metas(None),
+                    ix::LendingPoolCloneBank { bank_seed: sd }.data(),
+                )
+            }
             "configure_bank" => {
                 let bank = sreq(a, "bank")?;
                 let b = self.bank(bank)?;
@@ -2121,11 +2216,12 @@ impl Exec {
             }
         }
         let mut ixn = Instruction { program_id: marginfi::ID, accounts: metas, data };
-        if boolo(a, "cpi") == Some(true) {
-            // wrap: wrapper program forwards to marginfi
+        if boolo(a, "cpi") == Some(true) || s(a, "cpi_via").is_some() {
+            // wrap: wrapper program forwards to marginfi ("cpi_via": "mocks" = the registered third-party program of id 10001)
             let mut m = vec![AccountMeta::new_readonly(marginfi::ID, false)];
             m.extend(ixn.accounts.iter().cloned());
-            ixn = Instruction { program_id: crate::rt::wrapper_program_id(), accounts: m, data: ixn.data };
+            let wp = if s(a, "cpi_via") == Some("mocks") { marginfi::constants::MOCKS_PROGRAM_ID } else { crate::rt::wrapper_program_id() };
+            ixn = Instruction { program_id: wp, accounts: m, data: ixn.data };
         }
         Ok((ixn, signers))
     }
